@@ -387,3 +387,102 @@ func c04Case(rt *rapid.T, rec *evid.Rec, maxLen, sample int) {
 		}
 	}
 }
+
+// TestC04Transient: the transport fails ONCE, at a drawn byte offset, and then carries on (a
+// deadline of the transport's own, an interrupted system call: net.Error with Timeout()). The
+// application does what applications do with such an error: it reads again. Whatever the
+// library makes of that - give up the connection, or resume - (1) a message is reported
+// complete only if it is byte-identical to a message the peer sent, in order (a retried read
+// that re-parses from the middle of a frame reports a truncated message complete, or takes
+// payload for frames: defect D21), and (2) every message that was complete before the fault
+// is delivered. Every fault offset of each generated stream is enumerated.
+func TestC04Transient(t *testing.T) {
+	rec := evid.For("C04")
+	checkProp(t, func(rt *rapid.T) {
+		mode := rapid.SampledFrom(c03Modes).Draw(rt, "mode")
+		deflate := mode.Mode != websocket.CompressionDisabled
+		takeover := deflate && (mode.Name == "server/takeover" || mode.Name == "client/takeover" || mode.Name == "client/takeover-client_no_ctx-resp")
+		msgs, frames := genInStream(rt, inStreamOpts{Deflate: deflate, Takeover: takeover, MaxMsgs: 3, MaxLen: 120, MaxFrags: 3, Controls: true})
+		frames, stream, ends := finishMasking(frames, mode.Client)
+		buf := rapid.SampledFrom([]int{1, 5, 64, 4096, -1}).Draw(rt, "readBuf")
+		step := 1
+		if len(stream) > 400 {
+			step = len(stream)/400 + 1
+		}
+		for off := 0; off < len(stream); off += step {
+			var msg string
+			rapid.SyncTest(rt, func(rt *rapid.T) {
+				e := newEnv(rt)
+				defer e.Teardown()
+				lc, err := e.open(connSpec{Client: mode.Client, Mode: mode.Mode, Ext: mode.Ext})
+				if err != nil {
+					msg = "handshake: " + err.Error()
+					return
+				}
+				lc.Peer.start(e)
+				lc.C.SetReadLimit(1 << 20)
+				lc.End.SetReadFault(off, c04Timeout{})
+				lc.End.Write(stream)
+				lc.End.CloseWrite(nil)
+				var tr readTrace
+				d := e.Call(func() { tr = readAllMsgs(lc.C, func() int { return buf }, len(msgs)+2) })
+				if !within(d, 120*time.Second) {
+					msg = "reads did not return"
+					return
+				}
+				// messages wholly received before the fault
+				before := 0
+				{
+					fi := 0
+					for _, m := range msgs {
+						cnt := len(m.Frags)
+						for _, cs := range m.Controls {
+							cnt += len(cs)
+						}
+						last := fi + cnt - len(m.Controls[len(m.Frags)]) // index one past the last fragment
+						if last >= 1 && ends[last-1] <= off {
+							before++
+						}
+						fi += cnt
+					}
+				}
+				var complete [][]byte
+				for _, m := range tr.Msgs {
+					if m.EOF {
+						complete = append(complete, m.Data)
+					}
+				}
+				for _, m := range tr.After {
+					complete = append(complete, m.Data)
+				}
+				// in order, each one byte-identical to a message that was sent
+				j := 0
+				for i, got := range complete {
+					for j < len(msgs) && !bytes.Equal(msgs[j].payload, got) {
+						j++
+					}
+					if j == len(msgs) {
+						msg = fmt.Sprintf("message %d reported complete (%d bytes) is not a message the peer sent (or is out of order): a read retried after the transient error at offset %d resumed in the wrong place", i, len(got), off)
+						return
+					}
+					j++
+				}
+				if len(complete) < before {
+					msg = fmt.Sprintf("%d messages had arrived completely before the transport's transient error at offset %d, %d were delivered", before, off, len(complete))
+				}
+			})
+			kind, inside := cutPosition(frames, ends, off)
+			rec.Case(inside, fmt.Sprintf("transient|%s|%s|%d|%d", mode.Name, kind, len(frames), buf), "transient-fault:"+kind)
+			if msg != "" {
+				rt.Fatalf("C04 transient mode=%s fault at %d/%d (%s) buf=%d msgs=%v: %s", mode.Name, off, len(stream), kind, buf, msgs, msg)
+			}
+		}
+	})
+}
+
+// c04Timeout is a transient transport error as net.Conn implementations report them.
+type c04Timeout struct{}
+
+func (c04Timeout) Error() string   { return "i/o timeout (transient)" }
+func (c04Timeout) Timeout() bool   { return true }
+func (c04Timeout) Temporary() bool { return true }
